@@ -50,7 +50,7 @@ pub fn check_rendered(model: &mut Model, stats: &mut Stats, r: &Rendered, combos
     let mut reference_outcome: Option<String> = None;
     for (ci, combo) in combos.iter().enumerate() {
         let rules: &[&str] = if combo.rules { &DEFAULT_RULES } else { &[] };
-        let real = run_real(r, combo.generator, rules);
+        let real = if exp.cyclic { stats.add("isolated_in_child_process"); run_real_isolated(r, combo.generator, rules) } else { run_real(r, combo.generator, rules) };
         let tag = format!("{}{}", combo.generator, if combo.rules { "+rules" } else { "" });
         match &real {
             Real::Panic(msg) => {
@@ -412,6 +412,8 @@ fn case_stats(r: &mut Report, case: &Case, rendered: &Rendered) {
     for ss in &rendered.sites {
         for s in ss {
             r.hist("site_target", s.target.split(':').next().unwrap_or(""));
+            if s.literal.starts_with("@self") { r.hist("spelling", "@self"); }
+            else if !s.literal.starts_with('.') && s.target != "excluded" { r.hist("spelling", "alias"); }
             if s.literal.contains("/../") || s.literal.contains("/./") { r.hist("spelling", "noisy"); }
             else if s.literal.ends_with(".lua") || s.literal.ends_with(".luau") { r.hist("spelling", "with-extension"); }
             else { r.hist("spelling", "bare"); }
@@ -448,6 +450,10 @@ pub fn run(report: &mut Report, replay: Option<&str>) {
         if let Real::Ok(o) = &real { println!("{}\n=== bundle outcome {}", o, run_text(&mut model, o).unwrap()); }
         println!("=== reference outcome {}", run_text(&mut model, rendered.reference.as_ref().unwrap()).unwrap());
         println!("=== model {:?}", model_inline(&mut model, &rendered));
+        return;
+    }
+    if let Some(path) = replay.and_then(|p| p.strip_prefix("child:")) {
+        child_main(report, path);
         return;
     }
     if let Some(path) = replay {
@@ -538,6 +544,26 @@ pub fn run(report: &mut Report, replay: Option<&str>) {
             for (k, v) in stats.counts { r.count(&format!("small:{}", k), v); }
         });
     }
+    // ---- Luau mode: the same non-relative / relative literal from several directories
+    let twins_per_thread: usize = if thorough { 60 } else { 10 };
+    report.parallel(threads, |tid, r| {
+        let mut model = Model::spawn();
+        let mut stats = Stats::default();
+        let mut rng = Rng::new(seed.wrapping_mul(313).wrapping_add(tid as u64));
+        for _ in 0..twins_per_thread {
+            let case = g::self_twins(&mut rng);
+            let rendered = g::render(&case);
+            let combos = combos_for(&mut rng, thorough);
+            case_stats(r, &case, &rendered);
+            r.hist("family", "same-literal-different-directories");
+            let failures = check_rendered(&mut model, &mut stats, &rendered, &combos);
+            r.case(Some(&rendered.files));
+            if !failures.is_empty() {
+                report_failures(&mut model, r, Some(&case), &rendered, &combos, failures);
+            }
+        }
+        for (k, v) in stats.counts { r.count(&format!("twins:{}", k), v); }
+    });
     // ---- random graphs
     let per_thread: usize = if thorough { 260 } else { 40 };
     report.parallel(threads, |tid, r| {
